@@ -137,12 +137,12 @@ Definition pa_unpeer (s : pair) : pair := set_pa_rxw (set_pa_infl (set_pa_peer s
 
 (* READQ-LEN / WRITEQ-LEN: a new channel replaces the queue (what was queued is gone) and the socket's one sizeQ is
    closed, which every goroutine blocked on either queue watches: blocked SendMsg calls free their message and
-   return nil, the receiver goroutine frees the message it holds, blocked RecvMsg calls start over (with a fresh
-   deadline) *)
+   return nil, the receiver goroutine frees the message it holds, blocked RecvMsg calls start over on the new queue,
+   keeping the deadline of their call (the code as found restarted it: repaired in /repo) *)
 Definition pa_resize (s : pair) (t : N) : pair * list obs :=
   (set_pa_amb
      (set_pa_br (set_pa_rxw (set_pa_bs s []) [])
-                (map (fun b => {| br_t := br_t b; br_due := due_at (pa_now s) (pa_rexp s) |}) (pa_br s)))
+                (pa_br s))
      (pa_amb s || several (pa_br s)),      (* woken RecvMsg calls block again in any order *)
    map (fun b => ORet (bs_t b) ROk) (pa_bs s) ++ [ORet t ROk]).
 
